@@ -122,6 +122,17 @@ def v1_inputs(rng, tier, k=None):
         pool.append(b"PROXY UNKNOWN " + b"y" * max(total - 16, 0) + b"\r\n")
         pool.append(b"PROXY UNKNOWN " + b"y" * max(total - 15, 0) + b"\r")
         pool.append(b"PROXY TCP4 1.1.1.1 2.2.2.2 1 " + b"9" * max(total - 29, 0))
+    # every non-digit byte at every position of 1..5-character port texts and of one IPv4 octet
+    # (hand-written digit folds recognise a digit by a mask or a range that lets neighbours of
+    # '0'..'9' through: 0x3A..0x3F under `b & 0xF0 == 0x30`, '/' and ':' under off-by-one ranges)
+    for b in list(range(0x21, 0x30)) + list(range(0x3a, 0x7f)) + [0x00, 0x09, 0x0b, 0x7f]:
+        c = bytes([b])
+        for pat in (c, b"8" + c, c + b"8", b"1" + c + b"3", b"12" + c, b"123" + c, c + b"123", b"1234" + c, b"6553" + c):
+            pool.append(b"PROXY TCP4 127.0.0.1 192.168.1.1 " + pat + b" 443\r\n")
+            pool.append(b"PROXY TCP6 ::1 ::2 80 " + pat + b"\r\n")
+        for pat in (c, b"1" + c, c + b"1", b"1" + c + b"2", b"25" + c):
+            pool.append(b"PROXY TCP4 " + pat + b".0.0.1 192.168.1.1 80 443\r\n")
+            pool.append(b"PROXY TCP4 127.0.0.1 192.168.1." + pat + b" 80 443\r\n")
     return pool
 
 
@@ -962,7 +973,8 @@ class C16(Prop):
     id = "C16"
     required = ["C16.entry_points_agree", "C16.mid_char_all_errors", "C16.owned_equal", "C16.entry_points_mid_char_iff"]
     rule = ("every valid-UTF-8 input of the v1 pool plus multi-byte characters on both sides of the CR, through text / bytes / both FromStr; owned copies compared after the "
-            "source buffer is overwritten; non-trivial = distinct inputs containing a multi-byte character within two bytes of the first CR, or accepted")
+            "source buffer is overwritten; non-trivial = distinct inputs containing a multi-byte character within two bytes of the first CR, or accepted."
+            " Owned-copy clause for v2: accepted headers of every command x family x transport with payloads at the family minimum + {0,1,3,4,7,217,300} and random valid headers, TLV sections at boundary lengths (owned / clob / towned flags of the harness).")
 
     def gen(self, tier, rng):
         pool = [x for x in v1_inputs(rng, tier) if V.valid_utf8(x)]
@@ -973,11 +985,34 @@ class C16(Prop):
         for x in pool:
             ops.append("v1s " + C.hexs(x))
             ops.append("v1b " + C.hexs(x))
+        self._nv1 = len(ops)
+        # owned-copy clause for v2 headers and TLVs: accepted headers of every command / family /
+        # transport with payloads from the family minimum upwards (the unspecified family with a
+        # payload included), and TLV sections. A generator of its own, so that the v1 stream above
+        # does not depend on it.
+        import random
+        r2 = random.Random(int(os.environ.get("VERIF_SEED", "1")) * 1000 + 16)
+        for vc in G.VALID_VC:
+            for afp in G.VALID_AFP:
+                size = G.FAM_SIZE[afp >> 4]
+                for extra in (0, 1, 3, 4, 7, 217, 300):
+                    ops.append("v2 " + G.spec(G.header(vc, afp, size + extra, G.rand_bytes(r2, size + extra))))
+        for h in G.gen_valid_headers(r2, 400 if tier == "quick" else 20000):
+            ops.append("v2 " + G.spec(h))
+        for sec in G.tlv_boundary_sections(r2):
+            ops.append("tlv " + G.spec(sec))
         return ops
 
     def project(self, op, line):
         # C16 pins that the entry points agree with each other (the relation below), not which error a
         # rejected input gets: error kinds enter the projection only as their agreement pattern
+        if op.startswith(("v2 ", "tlv ")):
+            if line.startswith("panic") or line == "crash":
+                return "panic"
+            h, kv = C.fields(line)
+            if op.startswith("v2 "):
+                return ("ok", kv.get("owned"), kv.get("clob")) if h.startswith("ok") else None
+            return ("tlv", kv.get("towned"))
         if op.startswith("v1s"):
             rs = [res1(p) for p in line.split(" | ")]
             kinds = [r.get("variant") for r in rs]
@@ -988,7 +1023,14 @@ class C16(Prop):
 
     def relation(self, ops, impl):
         out = []
-        for i in range(0, len(ops), 2):
+        nv1 = getattr(self, "_nv1", len(ops))
+        for op, il in zip(ops[nv1:], impl[nv1:]):
+            h, kv = C.fields(il)
+            if op.startswith("v2 ") and h.startswith("ok") and (kv.get("owned") != "1" or kv.get("clob") != "1"):
+                out.append(Violation("relation", op[:300], il[:300], None, "owned copy of an accepted v2 header differs from the original (equality, views, Display, TLVs) or changed after the input buffer was overwritten (owned=%s clob=%s)" % (kv.get("owned"), kv.get("clob"))))
+            if op.startswith("tlv ") and kv.get("towned") != "1":
+                out.append(Violation("relation", op[:300], il[:300], None, "owned copy of a decoded TLV differs from the borrowed original"))
+        for i in range(0, nv1, 2):
             x = op_bytes(ops[i])
             parts = [res1(p) for p in impl[i].split(" | ")]
             rb = res1(impl[i + 1])
